@@ -435,7 +435,7 @@ def check_controller(case, ctx: Ctx):
         # Such documents are outside this sub-check's domain; the graph-level sub-checks still cover them.
         ctx.rec.label("controller:skipped:consumer-before-last-loop-stage")
         return
-    for c in case["cons"]:
+    for c in list(case["cons"]) + list(case["loop"]):
         staged = [case["loop"][u["c"]]["name"] for u in c["uses"] if u["method"] in ("copy", "link")]
         if len(staged) != len(set(staged)):
             # two same-named producers (of different stages) copied/linked into one working directory collide on the
